@@ -70,6 +70,11 @@ CHECKS = {
    technique='TLA+ model of key re-exchange on a busy connection (specs/Transport/Rekey.tla) model-checked with TLC incl. liveness; behaviours replayed packet by packet into a real pair; busy live sessions decoded by the independent decoder',
    text='TLC exhausts application sends from both sides interleaved with every step of (repeated, possibly simultaneous) key re-exchanges against FIFOExactlyOnce/NoKeyMismatch/OnlyKexBetween/EpochsInStep and the liveness property Completes (the flush-before-NEWKEYS variant is rejected); hundreds of behaviours are replayed at packet granularity with emitted message kinds, pending packets and received data compared after every step; live sessions with byte limits from 1 upward on several cipher families with requests and channel opens in flight must echo intact, emit only kex messages between KEXINIT and NEWKEYS, keep the session id, and be decodable by an independent decoder that switches to freshly derived keys at every NEWKEYS.',
    note='Trusted: TLC, hooks pkt_out/keylog, wire.py. Replay thresholds are 0/1 application packet; time-based re-keying shares the trigger path and is not driven by the virtual clock. Algorithm change between exchanges is not exercised.'),
+ 'C13': dict(
+   category='model_checking', design_ref='DESIGN.md §5.13',
+   technique='TLA+ models of path mapping, of request sequences over a small file system with symlinks/hard links and of SCP/recursive-get downloads (specs/PathConfine) model-checked with TLC; cases and behaviours replayed against the real chroot SFTP server, SCP sink and recursive get with a system-call monitor',
+   text='TLC exhausts every path over {a,b,"",".",".."} up to 5 components through the transcribed map_path, request sequences (22 request kinds) over a 3-4 node file system with symlinks and hard links, and SCP record / hostile directory-listing sequences, against AllTouchedUnderRoot/AllCreatedUnderDest (five sensitivity variants rejected); every case and every escaping history TLC finds is replayed against the real SFTPServer(chroot=), SCP sink and SFTPClient.get(recurse=True) in a scratch directory; the oracle is an audit-hook/os-wrapper monitor of every path-taking system call plus decoy files, independent of asyncssh internals.',
+   note='Trusted: TLC, the system-call monitor (audit hook + os wrappers) and the harness kernel-walk resolver. Three known findings (textual chroot vs later-moved symlinks; symlink write-through in recursive get) are listed in known_findings.json by mechanism kind.'),
 }
 NOT_YET = 'check under construction in this round; see DESIGN.md §9'
 
